@@ -103,6 +103,21 @@ def foreign_unit(v, unit):
     return qt_u != quantity_of(v).GetQuantityType()
 
 
+def foreign_unit_for_derived(v, unit):
+    """True iff v is a derived quantity with a non-empty dimension vector (no 'Unknown' in it) and
+    `unit` is a registered unit whose quantity type alone is not that vector."""
+    q = quantity_of(v)
+    if q is None or not q.IsDerived():
+        return False
+    vec = dim_vector(q)
+    if not vec or UNKNOWN in vec:
+        return False
+    qt_u = unit_type(unit)
+    if qt_u is None or qt_u == UNKNOWN:
+        return False
+    return vec != {qt_u: 1}
+
+
 def foreign_cat_unit(category, unit):
     db = _db()
     if not db.IsValidCategory(category):
